@@ -555,7 +555,23 @@ def z2rank(mat):
         mat is destroyed upon output!
     Returns:
     r: int - rank of the matrix under Z2 algebra.'''
-    return torch.linalg.matrix_rank(mat.to(torch.float32))
+    mat = mat.to(torch.float32) % 2 # Gaussian elimination over GF(2) (the real rank can be larger)
+    nr, nc = mat.shape[0], mat.shape[1]
+    r = 0
+    for i in range(nc):
+        if r < nr:
+            piv = torch.nonzero(mat[r:, i]).flatten()
+            if piv.shape[0] > 0:
+                k = r + int(piv[0])
+                if k != r: # swap rows r, k
+                    tmp = mat[k].clone()
+                    mat[k] = mat[r]
+                    mat[r] = tmp
+                rows = torch.nonzero(mat[r+1:, i]).flatten() + (r + 1)
+                if rows.shape[0] > 0:
+                    mat[rows] = (mat[rows] + mat[r]) % 2
+                r += 1
+    return torch.tensor(r)
 
 
 @torch.jit.script
